@@ -20,6 +20,7 @@ func init() {
 			"(3) load and where scan the dictionary stack from len-1 downwards and return at the first hit; bind resolves names through the same lookup; " +
 			"(4) if/ifelse run exactly one branch: the calls lie on opposite edges of the test of the boolean operand and take the operands at the PLRM stack positions; " +
 			"(5) loop protocol: for pushes one value per iteration, forall one (array, string: the element itself, byte-wise) or two (dictionary: key then value), loop/repeat none; repeat is a counted loop 0..count with stride 1; for's termination predicate equals (inc>0 ∧ v>limit) ∨ (inc<0 ∧ v<limit) (decision table over sign × order) and the control variable advances by the increment. " +
+			"(6) the dictionary stack that lookup walks is written only by begin, end and (for the duration of the section) eexec or helpers reached from these only, and eexec leaves it as it found it however the section ends (nil, io.EOF; section leaving it higher, equal, lower). " +
 			"It does NOT decide iteration counts or operand values of nested programs as values, nor scoping across nestings.",
 		trusted:     []string{"go/ssa CFG", "decision-table extraction for comparison-only predicates"},
 		assumptions: nil,
@@ -225,6 +226,8 @@ func runC03(c *Ctx) {
 	// ---------- (4) exactly one branch
 	c.branches(ia, reg)
 
+	// ---------- (6) the dictionary stack that lookup walks is the one the program built (ext_b.go)
+	c.dictStackDisciplineB()
 }
 
 func (c *Ctx) stopBecomesNil(tb *ssa.BasicBlock, m cmp) bool {
